@@ -38,6 +38,12 @@ def run(ctx):
     r4_r5(ctx)
     r6_r7(ctx)
     r8(ctx)
+    # blocks inside XorEncoded stages are found by scanning and then re-reading the decoding file view: its position
+    # algebra and nonce chaining (C09.R1-R3) are necessary conditions here as well
+    from rules import c09
+
+    for fn in (c09.r1, c09.r2, c09.r3):
+        ctx.import_obligations("R9", fn)
 
 
 def _yield_values(fn):
